@@ -1714,12 +1714,14 @@ fn guarded<R>(what: &str, input: &str, f: impl FnOnce() -> R) -> Result<R, Failu
 }
 
 /// Rendering failures are reported only after everything else in the case has been checked.
-struct Deferred(Vec<Failure>);
+struct Deferred(Vec<Failure>, usize);
 
 impl Deferred {
+    /// Printing a returned error is not one of the steps C27 speaks about (parse, compile): a panic while
+    /// rendering is recorded as a label only.
     fn render(&mut self, what: &str, input: &str, f: impl FnOnce() -> String) {
-        if let Err(fl) = guarded(what, input, f) {
-            self.0.push(fl);
+        if guarded(what, input, f).is_err() {
+            self.1 += 1;
         }
     }
 }
@@ -1754,7 +1756,7 @@ fn versions() -> [Version; 2] {
 fn check(c: &Case, info: &mut CaseInfo) -> CheckResult {
     info.label(format!("kind_{}", c.kind));
     let t = &c.text;
-    let mut df = Deferred(Vec::new());
+    let mut df = Deferred(Vec::new(), 0);
     match guarded("parse_policy_document", t, || parse_policy_document(t)) {
         Ok(Ok(p)) => compile_all(&p, "document", c, t, info, &mut df)?,
         Ok(Err(e)) => df.render("ParseError::to_string", t, || e.to_string()),
@@ -1790,6 +1792,9 @@ fn check(c: &Case, info: &mut CaseInfo) -> CheckResult {
             Err(fl) => df.0.push(fl),
         }
     }
+    if df.1 > 0 {
+        info.label("error_rendering_panicked_(outside_the_statement)");
+    }
     match df.0.into_iter().next() {
         Some(fl) => Err(fl),
         None => Ok(()),
@@ -1806,7 +1811,7 @@ pub fn run(ctx: &Ctx) -> ! {
         c.from_repo
     ));
     rep.assume("nesting depth of generated text is bounded (grammar sampler depth 7, inputs <= ~20 kB); exhaustion of the native stack by deeper nesting is not examined");
-    rep.assume("printing the returned ParseError / CompileError (Display) is included, since a structured error is only useful if it can be rendered");
+    rep.assume("printing the returned ParseError / CompileError (Display) is exercised but a panic there is only recorded as a label: the statement speaks about parsing and compiling, not about rendering errors");
     if std::env::var_os("VH_ROBUST_DUMP").is_some() {
         let mut rng = vcommon::rng_for(ctx.seed, "dump");
         use proptest::prelude::RngCore;
